@@ -100,7 +100,7 @@ def plan(tier):
   if tier == 'quick':
     return {'runs': 96, 'budget_s': 420, 'per_run_timeout_s': 240,
             'selftest_runs': 8, 'selftest_runs_full': 48, 'shrink_budget_s': 30}
-  return {'runs': 2400, 'budget_s': 1800, 'per_run_timeout_s': 600,
+  return {'runs': 8000, 'budget_s': 1800, 'per_run_timeout_s': 600,
           'selftest_runs': 16, 'selftest_runs_full': 96, 'shrink_budget_s': 120}
 
 
